@@ -96,10 +96,10 @@ Init == l = 1 /\ bad = 0
 Next == /\ l <= Len(Trace)
         /\ LET e == Trace[l] IN
              IF e.ev = "Nas"
-             THEN LET r9 == C09Nas(e) r8 == C08Nas(e) IN
+             THEN \E r9 \in {C09Nas(e)}, r8 \in {C08Nas(e)} :
                   /\ Report(l, e, r9) /\ Report(l, e, r8)
                   /\ bad' = bad + (IF r9.ok THEN 0 ELSE 1) + (IF r8.ok THEN 0 ELSE 1)
-             ELSE LET r == Explain(e) IN
+             ELSE \E r \in {Explain(e)} :
                   /\ Report(l, e, r)
                   /\ bad' = bad + (IF r.ok THEN 0 ELSE 1)
         /\ l' = l + 1
